@@ -101,6 +101,41 @@ func safeGen(r *hxlib.Rng, class string, idx int) (p *prog) {
 	return genProgram(r, class, idx)
 }
 
+// largeExamples run in the thorough tier (and in widened searches): real
+// library code with thousands of SSA values, long alias chains through array
+// updates, and many values recycled while others are live.
+var largeExamples = []*prog{
+	{Class: "large", GIn: []string{"7"}, EIn: []string{"201"}, Src: `package main
+
+import (
+	"sort"
+)
+
+var input = []int9{
+	136, 142, 146, 165, 183, 189, 220, 223, 232, 235, 67, 73, 77, 88,
+	91, 93, 95, 97, 98, 132, 5, 6, 7, 10, 14, 18, 18, 37, 50, 64, 245,
+	249, 252, 136, 142, 146, 165, 183, 189, 220, 223, 232, 235, 67,
+	73, 77, 88, 91,
+}
+
+func main(g, e byte) []int {
+	input[3] = int9(g)
+	input[17] = int9(e)
+	return sort.Reverse(sort.Slice(input))
+}
+`},
+	{Class: "large", GIn: []string{"0x0123456789abcdef0123456789abcdef"}, EIn: []string{"0xfedcba9876543210fedcba9876543210"}, Src: `package main
+
+import (
+	"crypto/aes"
+)
+
+func main(key, data [16]byte) []byte {
+	return aes.EncryptBlock(key, data)
+}
+`},
+}
+
 type outcome struct {
 	Status string
 	Vals   string
@@ -152,6 +187,18 @@ func runOracle(args []string) int {
 	}
 	if strings.HasPrefix(cf.Extra, "big=") {
 		fmt.Sscanf(cf.Extra, "big=%d", &nbig)
+	}
+	nlarge := 0
+	if cf.Tier == "thorough" || strings.Contains(cf.Extra, "large") {
+		nlarge = len(largeExamples)
+	}
+	for k := 0; k < nlarge; k++ {
+		if cf.Only >= 0 && cf.Only != 1000000+k {
+			continue
+		}
+		p := largeExamples[k]
+		p.Feat = map[string]bool{"large_example": true}
+		oneProgram(o, cf, 1000000+k, rng.Fork(), p)
 	}
 	total := cf.N + len(corpus)
 	for i := 0; i < total; i++ {
@@ -347,6 +394,25 @@ func oneProgram(o *hxlib.Out, cf *hxlib.CommonFlags, i int, r *hxlib.Rng, p *pro
 		}
 	}
 	info["explained_by_early_free"] = explained
+	// Second attribution: constants used at a second width (Program.Stream
+	// pads them from the first instance's wires; Program.Circuit takes the
+	// constant's own bits since 3c18dfa).
+	if explained == "false" && cause == "" && si.ConstPad > 0 {
+		if sp3, err := hxlib.CompileSSA(p.Src, sizes); err == nil {
+			nre := repadConstants(sp3)
+			d3 := hxlib.NewDuplex(nil)
+			res3 := hxlib.RunStreamProgram(sp3, p.GIn, p.EIn, nil, r.Fork(), d3, 90*time.Second)
+			d3.Close()
+			g3, e3 := streamOutcomes(res3)
+			info["rerun_with_own_width_constants"] = g3.String()
+			info["constants_repadded"] = nre
+			if nre > 0 && g3 == wo && e3 == wo {
+				cause = "const-second-width"
+				info["cause"] = cause
+				info["explained_by_const_width"] = "true"
+			}
+		}
+	}
 	if g.Types != wo.Types {
 		info["what"] = "types"
 	} else {
